@@ -176,6 +176,7 @@ class History(object):
         self.houtc = dict((i + 1, o) for i, o in enumerate(e["houtc"]))
         self.failmode = dict((i, self.rng.choice(FAILS)) for i in list(range(-n, 0)) + list(range(1, n + 1)))
         broker = dr.Broker()
+        arch = False
         if e["active"]:
             c = self.ctx[e["active"]]
             broker[c] = c()
@@ -186,6 +187,7 @@ class History(object):
             # another seeded one: that is the pruning of dr.run for this context, defect D17 -
             # an engine matter outside C05, reported in notes/C05.md.)
             broker[SerializedArchiveContext] = SerializedArchiveContext()
+            arch = True
         for j in e["seeded"]:
             broker[self.impl[j]] = Val(j)
         graph = dr.get_dependency_graph(self.consumer)
@@ -210,7 +212,7 @@ class History(object):
         if escaped:
             pval = OTHER
         return {"ev": "eval", "active": e["active"], "outc": e["outc"], "houtc": e["houtc"],
-                "seeded": sorted(e["seeded"]), "pval": pval, "called": sorted(set(self.log)),
+                "seeded": sorted(e["seeded"]), "arch": arch, "pval": pval, "called": sorted(set(self.log)),
                 "ncalls": len(self.log), "has": sorted(i for i, o in self.impl.items() if o in broker)}
 
     def cleanup(self):
